@@ -430,6 +430,7 @@ void sim_reset(uint64_t sched_seed)
 	s->fp = 0x6a09e667f3bcc908ULL;
 	for (int i = 0; i < SIM_MAX_NODES; i++) {
 		s->nodes[i].efail_at = -1;
+		s->nodes[i].afail_at = -1;
 		s->nodes[i].eburst_at = -1;
 		rng_seed(&s->nodes[i].ent, sched_seed ^ 0xe17, 1000 + i);
 	}
